@@ -26,6 +26,17 @@ fn source(space: Space, rng: &mut pvmon::Rng) -> V3 {
         1 => [rng.range(0.01, 0.99), rng.range(0.01, 0.99), 0.01],
         2 => [0.99, rng.range(0.01, 0.99), rng.range(0.01, 0.99)],
         3 => [rng.range(0.01, 0.05), rng.range(0.01, 0.05), rng.range(0.01, 0.05)],
+        // dark and saturated: the tristimulus ratios fall on different sides of the CIE L*a*b* / L*u*v* epsilon
+        4 => {
+            let mut v = [rng.range(0.0005, 0.004), rng.range(0.0005, 0.004), rng.range(0.0005, 0.004)];
+            v[rng.below(3) as usize] = rng.range(0.02, 0.3);
+            v
+        }
+        5 => {
+            let mut v = [rng.range(0.02, 0.2), rng.range(0.02, 0.2), rng.range(0.02, 0.2)];
+            v[rng.below(3) as usize] = rng.range(0.0005, 0.003);
+            v
+        }
         _ => [rng.range(0.01, 0.99), rng.range(0.01, 0.99), rng.range(0.01, 0.99)],
     };
     let mut c = gen::from_lin_srgb_like(space, lin);
@@ -135,7 +146,7 @@ fn main() {
     if ctx.enabled(mname) {
         let mon = Monitor::new(
             mname,
-            "direct A -> B against A -> M -> B for every listed pair and every intermediate M for which both legs are listed (M not luma), f32 and f64, seeded in-gamut colours; judged in B's comparison space; distinct = (A, M, B) triples",
+            "direct A -> B against A -> M -> B for every listed pair and every intermediate M for which both legs are listed (M not luma; luma sources included), f32 and f64, seeded in-gamut colours incl. dark saturated ones whose tristimulus ratios straddle the CIE epsilon; judged in B's comparison space; distinct = (A, M, B) triples",
         );
         let replay = ctx.replay.as_ref().filter(|r| r.monitor == mname).map(|r| (r.inst.clone(), parse_bits64(&r.input["bits"])));
         let res = par(if replay.is_some() { 1 } else { ctx.threads }, |t| {
@@ -143,9 +154,7 @@ fn main() {
             let mut rng = ctx.rng(mname, t as u64);
             let mut worst = 0.0f64;
             for (pi, &(i, j)) in pairs.iter().enumerate() {
-                if types[i].luma {
-                    continue;
-                }
+                // (single-channel luma is a legitimate *source*: its direct conversions must agree with the routes through XYZ)
                 if replay.is_none() && pi % ctx.threads != t {
                     continue;
                 }
